@@ -51,20 +51,33 @@ def doc_ptype_of_class(name):
 
 CLASS_OPS = [c for p in ptype_doc.PTYPES for c in CLASSES[p] if c not in KNOWN_BROKEN] + ["Grism"]
 ALPHABET = [f"ptype:{p}" for p in ptype_doc.PTYPES] + [f"class:{c}" for c in CLASS_OPS] + ["prop:dft", "prop:fft"]
+# the tilt classes document that a ``ptype`` keyword overrides their default type: every (class, type) combination is
+# a plane of that type (used in the variant enumeration, in short enumerated programs and in the drawn long ones)
+TILT_CLASSES = [c for c in ("Tilt", "DispersiveTilt", "Grism") if c in CLASS_OPS]
+EXTRA_OPS = [f"tiltp:{c}:{p}" for c in TILT_CLASSES for p in ptype_doc.PTYPES]
+ALL_OPS = ALPHABET + EXTRA_OPS
 
 
 def name_of(op):
-    kind, name = op.split(":")
+    kind, name = op.split(":", 1)
     return name if kind == "ptype" else None
 
 
 def plane_recipe(op):
     """(class name, keyword arguments, documented ptype, adds tilt) of the alphabet's plane ``op``"""
-    kind, name = op.split(":")
+    kind, name = op.split(":", 1)
     if kind == "ptype":
         if name in ("pupil", "image"):      # planes that give the wavefront a propagatable type also give it a shape
             return "Plane", dict(amplitude=np.ones((N, N)), ptype=name), name, False
         return "Plane", dict(ptype=name), name, False
+    if kind == "tiltp":
+        cls, p = name.split(":")
+        kw = dict(plane_recipe("class:" + cls)[1])
+        # (type as its name or as the lentil.<type> object; a propagatable type comes with a shape)
+        kw["ptype"] = p if (len(cls) + len(p)) % 2 else getattr(lentil, p)
+        if p in ("pupil", "image"):
+            kw["amplitude"] = np.ones((N, N))
+        return cls, kw, p, True
     p = doc_ptype_of_class(name)
     kw = {"Plane": {}, "Pupil": dict(amplitude=np.ones((N, N)), opd=np.zeros((N, N)), focal_length=Z_PUPIL),
           "Image": dict(amplitude=np.ones((N, N))), "Tilt": dict(x=1e-7, y=-2e-7),
@@ -101,7 +114,7 @@ def derive(plane, variant):
 
 
 def variant_for(ops, i):
-    return VARIANTS[(i + len(ops) + sum(ALPHABET.index(o) for o in ops[:i + 1])) % len(VARIANTS)]
+    return VARIANTS[(i + len(ops) + sum(ALL_OPS.index(o) for o in ops[:i + 1])) % len(VARIANTS)]
 
 
 START_FORMS = ["planes", "ctor_str", "ctor_obj", "setter_str", "empty_str", "empty_obj", "foreign"]
@@ -258,7 +271,8 @@ def run_program(start, ops, ctx=None, variants=None, blocked=False, form="planes
         w, t = new, expect
         # tilt is metadata of the fields: a wavefront that has no field left (blocked) has nothing to carry it
         has_tilt = has_tilt or (adds_tilt and len(new.data) > 0)
-        shaped = shaped or op in ("class:Pupil", "class:Image", "ptype:pupil", "ptype:image")
+        shaped = shaped or op in ("class:Pupil", "class:Image", "ptype:pupil", "ptype:image") or \
+            (op.startswith("tiltp:") and op.endswith((":pupil", ":image")))
     if ctx is not None:
         ctx.tag(f"start:{start}", f"len:{min(len(ops), 6)}", "has_refusal" if n_refused else None,
                 "has_propagation" if n_prop else None, f"final:{t}")
@@ -269,7 +283,7 @@ def _enum_programs(tier):
     maxlen = 3 if tier == "quick" else 4
     for start in ptype_doc.WTYPES:
         for L in range(0, maxlen + 1):
-            for ops in itertools.product(ALPHABET, repeat=L):
+            for ops in itertools.product(ALPHABET if L > 2 else ALL_OPS, repeat=L):
                 yield {"start": start, "ops": list(ops)}
 
 
@@ -282,7 +296,7 @@ def programs_enum(case, ctx):
 
 @hyp("C08", "programs_long", lambda tier: st.fixed_dictionaries(
         {"start": st.sampled_from(ptype_doc.WTYPES),
-         "ops": st.lists(st.sampled_from(ALPHABET), min_size=5, max_size=30),
+         "ops": st.lists(st.sampled_from(ALL_OPS), min_size=5, max_size=30),
          "blocked": st.sampled_from([False, False, False, True]),
          "form": st.sampled_from(["planes", "planes", "planes"] + START_FORMS[1:])}),
      "drawn programs of length 5..30 (one in four from a wavefront that two disjoint apertures have emptied)",
@@ -296,7 +310,7 @@ def programs_long(case, ctx):
 
 
 def _enum_variants(tier):
-    for op in ALPHABET:
+    for op in ALL_OPS:
         if op.startswith("prop:"):
             continue
         for t in ptype_doc.WTYPES:
